@@ -52,6 +52,7 @@ func (c RawConfiguration) QuorumCall(ctx context.Context, d QuorumCallData) (res
 
 	if expectedReplies == 0 {
 		// no node was targeted (the per node function skipped all of them)
+		vEmit("CallEnd", 0, md.MessageID, "out", "incomplete", "nerr", len(errs), "nrep", len(replies))
 		return resp, QuorumCallError{cause: Incomplete, errors: errs, replies: len(replies)}
 	}
 
